@@ -512,6 +512,12 @@ func (bp *boundsProver) proveLen(v ssa.Value, x ssa.Value, goal relGoal, at ssa.
 		}
 	case *ssa.Convert:
 		return bp.proveLen(w.X, x, goal, at, atBlock, seen, d+1)
+	case *ssa.Call:
+		return bp.proveLenOfCall(w, 0, x, goal, at, d)
+	case *ssa.Extract:
+		if call, ok := w.Tuple.(*ssa.Call); ok {
+			return bp.proveLenOfCall(call, w.Index, x, goal, at, d)
+		}
 	}
 	return false
 }
@@ -546,8 +552,17 @@ func (bp *boundsProver) proveLenOnEdge(v, x ssa.Value, goal relGoal, last ssa.In
 	return bp.proveLen(v, x, goal, last, pred, seen, d)
 }
 
-// rangeIndexSeq: if v is the index of a `for i := range s` loop, return s.
+// rangeIndexSeq: if idx visits 0, 1, .., len(s)-1 in order -- the index of `for i := range s` (go/ssa: phi(-1, idx) + 1
+// tested against len(s)) or the counter of `for i := 0; i < len(s); i++` (phi(0, i+1) tested in the loop header) --
+// return s.
 func rangeIndexSeq(idx ssa.Value) ssa.Value {
+	if s := rangeFormSeq(idx); s != nil {
+		return s
+	}
+	return counterFormSeq(idx)
+}
+
+func rangeFormSeq(idx ssa.Value) ssa.Value {
 	add, ok := idx.(*ssa.BinOp)
 	if !ok || add.Op != token.ADD {
 		return nil
@@ -576,6 +591,39 @@ func rangeIndexSeq(idx ssa.Value) ssa.Value {
 				return lx
 			}
 		}
+	}
+	return nil
+}
+
+func counterFormSeq(idx ssa.Value) ssa.Value {
+	phi, ok := idx.(*ssa.Phi)
+	if !ok || len(phi.Edges) != 2 {
+		return nil
+	}
+	zero, step := false, false
+	for _, ed := range phi.Edges {
+		if k, ok := constInt(ed); ok && k == 0 {
+			zero = true
+		} else if add, ok := ed.(*ssa.BinOp); ok && add.Op == token.ADD && add.X == idx {
+			if one, ok := constInt(add.Y); ok && one == 1 {
+				step = true
+			}
+		}
+	}
+	if !zero || !step {
+		return nil
+	}
+	blk := phi.Block()
+	iff, ok := blk.Instrs[len(blk.Instrs)-1].(*ssa.If)
+	if !ok {
+		return nil
+	}
+	cmp, ok := iff.Cond.(*ssa.BinOp)
+	if !ok || cmp.Op != token.LSS || cmp.X != idx {
+		return nil
+	}
+	if lx, ok := lenOf(cmp.Y); ok {
+		return lx
 	}
 	return nil
 }
@@ -637,6 +685,82 @@ func (bp *boundsProver) geZero(v ssa.Value, atBlock *ssa.BasicBlock, seen map[ss
 		}
 	case *ssa.Convert:
 		return bp.geZero(w.X, atBlock, seen, d+1)
+	case *ssa.Call:
+		// a module helper (e.g. an extracted search): every value it returns is >= 0
+		if rets := bp.helperReturns(w, 0); rets != nil && !seen[w] {
+			seen[w] = true
+			defer delete(seen, w)
+			for _, r := range rets {
+				if !bp.geZero(r.val, r.ret.Block(), map[ssa.Value]bool{}, d+1) {
+					return false
+				}
+			}
+			return true
+		}
+	case *ssa.Extract:
+		if call, ok := w.Tuple.(*ssa.Call); ok && !seen[w] {
+			if rets := bp.helperReturns(call, w.Index); rets != nil {
+				seen[w] = true
+				defer delete(seen, w)
+				for _, r := range rets {
+					if !bp.geZero(r.val, r.ret.Block(), map[ssa.Value]bool{}, d+1) {
+						return false
+					}
+				}
+				return true
+			}
+		}
+	}
+	return false
+}
+
+type helperRet struct {
+	val ssa.Value
+	ret *ssa.Return
+}
+
+// helperReturns: the values a statically called module function returns in result position idx (nil if the callee is
+// not a module function with a body, or is recursive through this call's own function).
+func (bp *boundsProver) helperReturns(call *ssa.Call, idx int) []helperRet {
+	cal := call.Call.StaticCallee()
+	if cal == nil || call.Call.IsInvoke() || !bp.c.P.isModuleFn(cal) || len(cal.Blocks) == 0 || cal == call.Parent() {
+		return nil
+	}
+	var out []helperRet
+	for _, b := range cal.Blocks {
+		if ret, ok := b.Instrs[len(b.Instrs)-1].(*ssa.Return); ok {
+			if idx >= len(ret.Results) {
+				return nil
+			}
+			out = append(out, helperRet{ret.Results[idx], ret})
+		}
+	}
+	return out
+}
+
+// proveLenOfCall: v = f(args) (result idx) and x is the same sequence as args[j]: inside f every returned value
+// satisfies the goal against parameter j. Requires that f does not re-slice or reassign that parameter (SSA: the
+// parameter value is immutable; a slice header passed by value cannot change length in the caller).
+func (bp *boundsProver) proveLenOfCall(call *ssa.Call, idx int, x ssa.Value, goal relGoal, at ssa.Instruction, d int) bool {
+	rets := bp.helperReturns(call, idx)
+	if rets == nil {
+		return false
+	}
+	cal := call.Call.StaticCallee()
+	for j, a := range call.Call.Args {
+		if j >= len(cal.Params) || !(bp.sameSeq(a, x) && bp.loadStable(a, x, at)) {
+			continue
+		}
+		ok := true
+		for _, r := range rets {
+			if !bp.proveLen(r.val, cal.Params[j], goal, r.ret, nil, map[ssa.Value]bool{}, d+1) {
+				ok = false
+				break
+			}
+		}
+		if ok {
+			return true
+		}
 	}
 	return false
 }
@@ -657,7 +781,7 @@ func (bp *boundsProver) ubConst(v ssa.Value, k int64, atBlock *ssa.BasicBlock, e
 	conds := dominatingConds(atBlock)
 	if edgeTo != nil {
 		if iff, ok := atBlock.Instrs[len(atBlock.Instrs)-1].(*ssa.If); ok && atBlock.Succs[0] != atBlock.Succs[1] {
-			conds = append(conds, condEdge{iff.Cond, atBlock.Succs[0] == edgeTo, iff})
+			conds = append(conds, condEdge{Cond: iff.Cond, Val: atBlock.Succs[0] == edgeTo, If: iff})
 		}
 	}
 	for _, ce := range conds {
